@@ -96,7 +96,8 @@ def recorded_repo_tests(rep):
     from . import hexary_driver as hd
 
     out = os.path.join(scratch(), "recorded.json")
-    env = dict(os.environ, PYTHONPATH=VERIF + os.pathsep + REPO, VERIF_RECORD_OUT=out, PYTHONHASHSEED="0")
+    env = dict(os.environ, PYTHONPATH=VERIF + os.pathsep + REPO, VERIF_RECORD_OUT=out, PYTHONHASHSEED="0",
+               HYPOTHESIS_STORAGE_DIRECTORY=os.path.join(scratch(), "hypothesis"))
     files = ["tests/core/test_hexary_trie.py", "tests/core/test_proof.py", "tests/core/test_hexary_trie_walk.py"]
     p = subprocess.run([sys.executable, "-m", "pytest", "-q", "-p", "no:cacheprovider", "-p", "harness.recorder_plugin",
                         "--timeout=900", "-x", "--deselect", "tests/core/test_hexary_trie.py::test_fixtures_exist"] + files,
@@ -262,10 +263,16 @@ def c07(tier):
     pr = ["FailedCallUnchanged", "ReportedTruth"]
     base = dict(keys="KFaults", look="LFaults", vals="VFaults", features="FFaults", maxlost=2,
                 invariants=inv, properties=pr, view="ViewFaults")
+    two = dict(base, level=7, prune="OnlyPrune", keys="KFaults3", maxlive=2, maxbatch=2, maxlost=1,
+               view="ViewFaultsLast")
     return generic("C07", tier,
                    [dict(base, level=5, features="FFaultsDirect"),
-                    dict(base, level=5, prune="OnlyPrune", keys="KFaults3", maxlive=2, maxbatch=1)],
-                   [dict(base, level=6, features="FFaultsDirect", maxlost=3), dict(base, level=5),
+                    dict(base, level=5, prune="OnlyPrune", keys="KFaults3", maxlive=2, maxbatch=1),
+                    # a pruning trie, batches of two operations, one node lost: with the previous call in the
+                    # view, a batch that is left after one of its operations hit the missing node is replayed
+                    # behind exactly that history (7 calls: set, set, lose, begin, op, failing op, abort)
+                    two],
+                   [dict(base, level=6, features="FFaultsDirect", maxlost=3), dict(base, level=5), two,
                     dict(base, level=5, vals="VQuick", features="FFaultsDirect")],
                    modes=("faults",), ntr=(150, 2000),
                    sim=dict(base, features="FFaultsNoop", maxlost=3, maxlive=4, emit="EmitC07"),
